@@ -256,7 +256,7 @@ impl Property for C13 {
     fn run(case: &Case, obs: &mut Obs) -> Result<(), Failure> {
         // index contents
         let epochs = gen_epochs(case.seed, 3, 50, 0);
-        let txgen = TxGen { density: 90, max_txs: 4, typed: case.typed as u64, same_block: case.same_block as u64, cellbase_universe: true };
+        let txgen = TxGen { density: 90, max_txs: 4, typed: case.typed as u64, same_block: case.same_block as u64, cellbase_universe: true, gate: false };
         let mut chain = Chain::new(epochs, START_TIME, case.seed, Pow::Dummy, txgen);
         chain.mine_n(case.len as u64);
         let dir = tempfile::Builder::new().prefix("lcv13").tempdir_in(crate::lcv::tmp_root()).unwrap();
